@@ -97,6 +97,8 @@ PROPS["C04"] = {
     "level": "exploration",
     "units": [
         {"name": "c04-convergence", "pkg": ROOT, "run": "TestVerifC04", "timeout": {"quick": 1200, "thorough": 3400}},
+        {"name": "c04-overlapping-updates", "pkg": ROOT, "run": "TestVerifC04Overlap", "instr": ["store_metadata_index.go|sync|UpdateIndex"],
+         "timeout": {"quick": 900, "thorough": 3000}},
     ],
 }
 PROPS["C07"] = {
